@@ -38,6 +38,8 @@ static void f_free(void* p) {
 // ------------------------------------------------------------------ scenarios
 struct Handles { mjSpec* s = nullptr; mjSpec* s2 = nullptr; mjModel* m = nullptr; mjModel* m2 = nullptr; mjModel* m3 = nullptr; mjData* d = nullptr; mjData* d2 = nullptr; std::vector<char> bytes; std::string xmlout; };
 static Handles H;
+static std::set<size_t> g_mbufs, g_dbufs;   // buffer sizes of every model / data the scenario has produced in this case (a scenario that edits its spec has several)
+static void learn() { if (H.m) g_mbufs.insert((size_t)H.m->nbuffer); if (H.d) g_dbufs.insert((size_t)H.d->nbuffer); }
 #define STAGE(name) g_stage = name
 static int scenario(int which, const std::string& xml) {
   char err[500] = "";
@@ -53,6 +55,14 @@ static int scenario(int which, const std::string& xml) {
   } else if (which == 1) {
     STAGE("mj_makeData"); H.d = mj_makeData(H.m); if (!H.d) return 3;
     STAGE("mj_recompile"); if (mj_recompile(H.s, nullptr, H.m, H.d) != 0) { H.m = nullptr; H.d = nullptr; return 7; }   // documented: on failure the given model and data are deleted
+    // an edit that changes the model's sizes (buffer length, nq, nbody), then the in-place recompile again
+    STAGE("mjs_edit");
+    { mjsBody* w = mjs_findBody(H.s, "world");
+      if (w) { mjsBody* nb = mjs_addBody(w, nullptr); nb->pos[2] = 2.5; mjsJoint* nj = mjs_addJoint(nb, nullptr); nj->type = mjJNT_HINGE; nj->axis[0] = 0; nj->axis[1] = 1; nj->axis[2] = 0;
+               mjsGeom* ng = mjs_addGeom(nb, nullptr); ng->type = mjGEOM_SPHERE; ng->size[0] = 0.04; mjsGeom* wg = mjs_addGeom(w, nullptr); wg->type = mjGEOM_BOX; wg->size[0] = wg->size[1] = wg->size[2] = 0.03; wg->pos[2] = 3; } }
+    learn();
+    STAGE("mj_recompile(edited)"); if (mj_recompile(H.s, nullptr, H.m, H.d) != 0) { H.m = nullptr; H.d = nullptr; return 7; }
+    learn();
     STAGE("mj_copySpec"); H.s2 = mj_copySpec(H.s); if (!H.s2) return 8;
     STAGE("mj_saveXMLString"); { H.xmlout.assign(200000, 0); if (mj_saveXMLString(H.s, H.xmlout.data(), (int)H.xmlout.size(), err, sizeof err) != 0) return 9; }
     STAGE("mj_saveModel"); { mjtSize sz = mj_sizeModel(H.m); H.bytes.assign((size_t)sz, 0); mj_saveModel(H.m, nullptr, H.bytes.data(), (int)sz); }
@@ -81,8 +91,8 @@ static void cleanup() {
 static std::string kind_of(size_t sz, const mjModel* refm, const mjData* refd) {
   if (sz == sizeof(mjModel)) return "mjModel-struct";
   if (sz == sizeof(mjData)) return "mjData-struct";
-  if (refm && sz == (size_t)refm->nbuffer) return "mjModel-buffer";
-  if (refd && sz == (size_t)refd->nbuffer) return "mjData-buffer";
+  if ((refm && sz == (size_t)refm->nbuffer) || g_mbufs.count(sz)) return "mjModel-buffer";
+  if ((refd && sz == (size_t)refd->nbuffer) || g_dbufs.count(sz)) return "mjData-buffer";
   if (refd && sz == (size_t)refd->narena) return "mjData-arena";
   return "other";
 }
@@ -101,6 +111,7 @@ int main(int argc, char** argv) {
     const char* scn = which == 0 ? "S1:load/makeData/step/copy/save/loadBuffer" : which == 1 ? "S2:compile/recompile/copySpec/saveXML" : "S3:reset/keyframe/threadpool/copyInto";
     // ---- dry run: count allocations, get baseline bytes and reference sizes
     g_live.clear(); g_ncall = 0; g_fail_at = -1; g_fail_p = 0; g_nfailed = 0; g_bad_free = false;
+    g_mbufs.clear(); g_dbufs.clear();
     int rc = -1;
     bool raised = ND_GUARD({ rc = scenario(which, gm.xml); });
     if (raised || rc != 0) { ND_GUARD({ cleanup(); }); count("scenario_skipped_baseline_failed"); end_case(); continue; }
